@@ -363,11 +363,9 @@ impl Orc<'_> {
                 })
             };
             let imps: Vec<_> = sc.flat().into_iter().filter(|(p, _)| p.last().unwrap() == name).collect();
-            if decl.is_some() && !imps.is_empty() {
-                return Out::Amb; // declaration and import of one name in one scope: not ordered by the docs
-            }
             if let Some(r) = decl {
-                tr.over = self.peek(chain, s as isize - 1, name);
+                // declarations of a scope come before that scope's imports
+                tr.over = if imps.is_empty() { self.peek(chain, s as isize - 1, name) } else { "import-same-scope" };
                 return Out::Ok(r, tr);
             }
             if imps.len() > 1 {
@@ -494,9 +492,6 @@ impl Orc<'_> {
         let mut by_name: BTreeMap<String, Vec<Vec<String>>> = BTreeMap::new();
         for (p, _) in &flat {
             let n = p.last().unwrap().clone();
-            if names.contains(&n) {
-                return Err(());
-            }
             by_name.entry(n).or_default().push(p.clone());
         }
         for (_, paths) in by_name {
@@ -779,16 +774,22 @@ impl Gen<'_> {
         let s = chain.len() - 1;
         let (segs, m) = self.gen_prefix(chain, rng, naughty)?;
         let sc = &chain[s];
-        let mut taken: BTreeSet<String> = sc.locals().iter().map(|l| l.0.to_string()).collect();
+        // names another import of this scope binds are taken (a second import of the name is an
+        // error); names the scope declares itself may be imported as well now and then: the
+        // declaration comes first, the import is dead
+        let mut taken: BTreeSet<String> = BTreeSet::new();
         for (p, _) in sc.flat() {
             taken.insert(p.last().unwrap().clone());
         }
-        if s == 0 {
-            for it in &t.mods[sc.module].items {
-                taken.insert(it.name.to_string());
-            }
-            for c in &t.mods[sc.module].children {
-                taken.insert(t.mods[*c].name.clone());
+        if !rng.chance(1, 4) {
+            taken.extend(sc.locals().iter().map(|l| l.0.to_string()));
+            if s == 0 {
+                for it in &t.mods[sc.module].items {
+                    taken.insert(it.name.to_string());
+                }
+                for c in &t.mods[sc.module].children {
+                    taken.insert(t.mods[*c].name.clone());
+                }
             }
         }
         let dup_ok = naughty && rng.chance(1, 3);
